@@ -289,6 +289,29 @@ pub fn check_output(mv: &MV, pi: usize) -> CaseResult {
         let b = lexpr::to_vec_custom(&v, p.to_lexpr());
         let mut w = Vec::new();
         let c = lexpr::to_writer_custom(&mut w, &v, p.to_lexpr()).map(|_| w);
+        // a sink that takes one byte per call still receives the same bytes
+        // (a cut inside a multi-byte character must not lose its rest)
+        struct OneByteSink(Vec<u8>);
+        impl std::io::Write for OneByteSink {
+            fn write(&mut self, data: &[u8]) -> std::io::Result<usize> {
+                match data.first() {
+                    Some(b) => {
+                        self.0.push(*b);
+                        Ok(1)
+                    }
+                    None => Ok(0),
+                }
+            }
+            fn flush(&mut self) -> std::io::Result<()> {
+                Ok(())
+            }
+        }
+        let mut one = OneByteSink(Vec::new());
+        let c = match (c, lexpr::to_writer_custom(&mut one, &v, p.to_lexpr())) {
+            (Ok(w), Ok(())) if w == one.0 => Ok(w),
+            (Ok(w), Ok(())) => Ok([&w[..], b" | one byte per call: ", &one.0[..]].concat()),
+            (Err(e), _) | (_, Err(e)) => Err(e),
+        };
         (s, b, c)
     });
     match r {
